@@ -754,6 +754,35 @@ def reader_run(ctx, fileset, n, faults, cases, keep=True, unit=True, chunk=4, in
                expect_violation=expect_violation, count=not expect_violation)
 
 
+def reader_rand_run(ctx, fileset, n, cases, chunk=2, intr=0, salt=0):
+    """Reader.tla over a seed-generated byte alphabet: eight random payload bytes besides LF, CR, NUL, and seven random
+    UTF-16 code units of which some carry a 0x0A byte (module RandReader, overriding PayloadBytes / Units)."""
+    import random
+    rnd = random.Random(ctx.seed * 1009 + 29 + salt * 86028121)
+    payload = sorted(set([10, 13, 0] + [rnd.randint(1, 255) for _ in range(8)]))
+    units = set()
+    while len(units) < 7:
+        u = (rnd.choice([10, 10, 0, rnd.randint(0, 255)]), rnd.choice([10, 0, 0, rnd.randint(0, 255)]))
+        units.add(u)
+    units |= {(10, 0), (0, 10)}
+    text = ("----------------------------- MODULE RandReader -----------------------------\n"
+            "(* generated by bin/plans.py (reader_rand_run) from VERIF_SEED = %d - do not edit.  A randomised byte / code-unit\n"
+            "   alphabet for Reader: the model is the oracle, the bytes it is asked about change with the seed. *)\n"
+            "EXTENDS Reader\n\nRandPayload == {%s}\nRandUnits == {%s}\n"
+            "=============================================================================\n") % (
+                ctx.seed, ", ".join(map(str, payload)), ", ".join("<<%d, %d>>" % u for u in sorted(units)))
+    path = os.path.join(SPEC, "RandReader.tla")
+    old = open(path).read() if os.path.exists(path) else None
+    if old != text:
+        with open(path, "w") as fh:
+            fh.write(text)
+    sany(ctx, "RandReader")
+    cfg = dict(spec="Spec", invariants=READER_INV, properties=["Terminates", "FaultSurfaces"], view="View",
+               constants=dict(FileSet='"%s"' % fileset, FileN=str(n), MaxChunk=str(chunk), MaxIntr=str(intr), FaultSet='"none"',
+                              KeepShortChunks="TRUE", UnitAware="TRUE", Emit="TRUE", PayloadBytes="<-RandPayload", Units="<-RandUnits"))
+    return tlc(ctx, "RandReader", "MC_RandReader_%s%d" % (fileset, n), cfg, workers=14, timeout=3000, cases_file=cases)
+
+
 def check_C08(ctx):
     thorough = ctx.tier == "thorough"
     sany(ctx, "Reader")
@@ -814,6 +843,10 @@ def check_C10(ctx):
     cases = os.path.join(ctx.work, "reader.ndjson")
     reader_run(ctx, "hdr", 4 if thorough else 3, "none", cases, chunk=2, intr=0)
     reader_run(ctx, "units", 4 if thorough else 3, "none", cases, chunk=2, intr=0)
+    # seed-generated byte and code-unit alphabets (the model stays the oracle)
+    for salt in ([2, 1, 0] if thorough else [0]):
+        reader_rand_run(ctx, "hdr", 2, cases, chunk=2, intr=0, salt=salt)
+        reader_rand_run(ctx, "units", 3, cases, chunk=2, intr=0, salt=salt)
     # the pinned reader splits UTF-16 text after every 0x0A byte: a violation of the model's invariant
     reader_run(ctx, "hdr", 2, "none", None, unit=False, expect_violation=True, inv=["ScheduleIndependent"])
     summ = harness(ctx, ["reader", "replay", "--prop", "C10"], cases_file=cases, name="reader-replay", timeout=3600)
